@@ -453,9 +453,46 @@ def run(ctx):
     model = ctx.model()
     check_claim(ctx, model)
     check_query_claimable(ctx, model)
+    check_epoch_keys_big_endian(ctx, model)
     check_migration_refund(ctx, model)
     check_bond_requires_claimed(ctx, model)
     check_claim_requires_available_entry(ctx, model)
     check_reply(ctx, model)
     check_window_selection(ctx, model)
     check_writers(ctx, model)
+
+
+def check_epoch_keys_big_endian(ctx, model):
+    """D9: the distributor finds the current / expiring / claimable epochs by scanning EPOCHS in key order, so key order
+    must equal id order: every EPOCHS key is the epoch id encoded big-endian (`id.to_be_bytes()`), at every access site
+    (little-endian keys order correctly only up to id 255)."""
+    from ..effects import return_origins
+    from ..mir import storage_call
+    n = 0
+    bad = []
+    for p in sorted(model.all_paths("fee_distributor")):
+        if "::tests::" in p:
+            continue
+        v = model.view(p)
+        for b, t in v.iter_calls():
+            sc = storage_call(t)
+            if not sc or sc[1] not in ("save", "load", "may_load", "remove", "has", "update"):
+                continue
+            if not any(o.kind == "item" and o.a.endswith("fee_distributor::state::EPOCHS") for o in v.storage_item_of_call(t, v.at_term(b))):
+                continue
+            n += 1
+            ko = v.origins_of_operand(t["args"][2], at=v.at_term(b))
+            res = set()
+            for o in ko:
+                if o.kind == "call":
+                    c = call_of(v, o)
+                    callee = term_callee(c[1]) if c else None
+                    if callee in model.fnsrc:
+                        res |= return_origins(model, callee)
+                        continue
+                res.add(o)
+            if not (res and all(o.kind == "call" and o.a.endswith("::to_be_bytes") for o in res)):
+                bad.append("%s line %s: key from %s" % (p.split("::")[-1], t.get("ln"), sorted(map(repr, res))[:2]))
+    ctx.ob("C09-D9", "fee_distributor|EPOCHS-keys-big-endian", n > 0 and not bad,
+           "; ".join(bad) if bad else "%d EPOCHS accesses, every key is id.to_be_bytes()" % n)
+    ctx.floor("C09-D9", "EPOCHS access sites", n, 5)
